@@ -19,6 +19,7 @@ pub mod c16;
 pub mod c17;
 pub mod c18;
 pub mod c19;
+pub mod c20;
 pub mod textgen;
 
 pub fn dispatch(id: &str, cfg: Config) -> i32 {
@@ -42,6 +43,11 @@ pub fn dispatch(id: &str, cfg: Config) -> i32 {
         "C17" => crate::run_prop(c17::C17, cfg),
         "C18" => crate::run_prop(c18::C18, cfg),
         "C19" => crate::run_prop(c19::C19, cfg),
+        "C20" => {
+            let rc = crate::run_prop(c20::C20, cfg);
+            c20::cleanup();
+            rc
+        }
         _ => {
             eprintln!("unknown property {}", id);
             2
